@@ -194,6 +194,17 @@ func init() {
 			},
 		},
 		propCheck{
+			ID: "C40", Level: "exploration",
+			Rule: "one evaluation = one simulated run of the server with the privilege database enabled: 1-4 accounts (host patterns %, localhost, 10.%, an exact IP; password or none; locked or not) and 2-8 login attempts by a raw protocol client from drawn client addresses over the simulated network: right / wrong / empty / foreign password, unknown user, with the auth response truncated to a drawn length, extended, bit-flipped, replaced by garbage or sent twice, the client leaving after the greeting or after its response, fragmented delivery, and an admin session re-creating accounts locked/unlocked or changing passwords between attempts; oracle: accepted iff an unlocked account matches user and client address and the proof sent equals the honest proof for the account's password (empty for a no-password account), CURRENT_USER() = the matched account, every refusal is an ERR packet, nothing is left in the process list, and a final well-formed login succeeds; non-trivial = always; distinct = distinct hash of the (fault, step, verdict) sequence",
+			Real: []string{"vitess handshake / auth negotiation code, mysql_db.MySQLDb ValidateHash and native-password verification, CREATE/ALTER/DROP USER", "server connection setup and teardown"},
+			Stub: []string{"sockets (simnet), client (raw protocol client of the harness computing the SHA1 scramble itself)", "clock (synctest bubble)"},
+			Assumptions: []string{"only mysql_native_password is exercised; user names are unique per run, so overlapping host patterns for one user are out of scope", "a response sent twice is only checked for survival (the duplicate is read as a command)"},
+			Subs: []subCheck{
+				{ID: "C40", World: "wiresim", Quick: 12000, Thorough: 600000, QuickCap: 80, ThoroughCap: 1200, GC: "100",
+					Probes: []string{"handshake-truncate0", "handshake-extend0", "handshake-flip0", "handshake-1", "handshake-2", "fragment"}},
+			},
+		},
+		propCheck{
 			ID: "C45", Level: "exploration",
 			Rule: "one evaluation = one simulated run: 2-4 tasks redact generated statements and single lexemes through one shared Mapping, the scheduler interleaving them at the RUnlock->Lock upgrade window; non-trivial = the upgrade window actually parked a goroutine; distinct = distinct hash of the event-kind sequence",
 			Real: []string{"sqlredact.Mapping", "sqlredact.RedactSQLForTraceInto", "vitess tokenizer and parser"},
